@@ -206,7 +206,7 @@ impl<F: StateFlavour> StateSut<F> {
 
 impl<F: StateFlavour> Drop for StateSut<F> {
     fn drop(&mut self) {
-        self.futs.clear();
+        self.futs.drop_live();
         while self.ch.handle_op("drop_sender") {}
         while self.ch.handle_op("drop_receiver") {}
         self.ch.destroy();
@@ -395,6 +395,27 @@ impl<F: StateFlavour> Sut for StateSut<F> {
 
     fn may_alloc(&self, e: &Value) -> bool {
         e["op"] == "destroy"
+    }
+
+    fn cleanup_ops(&self) -> Vec<Value> {
+        if self.dead {
+            return Vec::new();
+        }
+        let mut v = Vec::new();
+        for s in self.futs.live_slots() {
+            v.push(json!({"op": "drop", "r": s}));
+        }
+        let (hs, hr) = self.ch.handles();
+        if F::SHARED {
+            for _ in 0..hs {
+                v.push(json!({"op": "drop_sender"}));
+            }
+            for _ in 0..hr {
+                v.push(json!({"op": "drop_receiver"}));
+            }
+        }
+        v.push(json!({"op": "destroy"}));
+        v
     }
 
     fn random_op(&self, rng: &mut Rng) -> Value {
